@@ -27,10 +27,37 @@ func main() {
 		dump      = flag.String("dump", "", "debug: print facts for function id substring")
 		noMutants = flag.Bool("no-mutants", false, "thorough tier without the mutant self-test")
 		verbose   = flag.Bool("v", false, "print every obligation")
+		listP     = flag.Bool("list-properties", false, "print registered properties as JSON")
+		listW     = flag.Bool("list-writers", false, "debug: list controller-runtime writer call sites")
 		explain   = flag.String("explain", "", "replay: print the violated obligations recorded in this evidence file, then re-run")
 	)
 	flag.Parse()
 	start := time.Now()
+	if *listP {
+		type pj struct {
+			ID, Explanation, Technique string
+			NotDecided            []string
+			Rules                 []string
+			Mutants               int
+		}
+		var out []pj
+		for _, id := range sortedPropIDs() {
+			pr := properties[id]
+			x := pj{ID: id, Explanation: pr.Explanation, Technique: pr.Technique, NotDecided: pr.NotDecided}
+			for _, r := range pr.Rules {
+				x.Rules = append(x.Rules, r.ID+": "+r.Statement)
+			}
+			for _, m := range mutants {
+				if m.Prop == id {
+					x.Mutants++
+				}
+			}
+			out = append(out, x)
+		}
+		b, _ := json.MarshalIndent(out, "", " ")
+		fmt.Println(string(b))
+		return
+	}
 	if *verifDir == "" {
 		exe, err := os.Executable()
 		if err == nil {
@@ -68,7 +95,7 @@ func main() {
 			}
 			ids = append(ids, id)
 		}
-	case *dump != "":
+	case *dump != "", *listW:
 	default:
 		fmt.Fprintln(os.Stderr, "usage: pkocheck -property <id|all> [-tier quick|thorough]")
 		os.Exit(2)
@@ -118,6 +145,12 @@ func main() {
 	}
 	if *dump != "" {
 		dumpFacts(prog, *dump)
+		return
+	}
+	if *listW {
+		for _, ws := range allWriterSites(prog.productFuncs()) {
+			fmt.Printf("%-14s %-8s %-60s %s  obj=%s\n", ws.Verb, ws.Class, shortFuncID(ws.Call.Fn), prog.IPos(ws.Call.Instr), prog.describe(ws.Obj))
+		}
 		return
 	}
 	known, err := loadKnown(*knownPath)
